@@ -12,7 +12,10 @@ Import ListNotations.
 
 Inductive case :=
 | KSeg (c : cfg) (reads : list string) (cum : list N) (out : string) (dead : bool)
-| KAll (c : cfg) (stream out : string).
+| KAll (c : cfg) (stream out : string)
+(* as KSeg, for long byte strings: each one is given in pieces (a hex literal of 100 KB and more
+   overflows coqc's stack) *)
+| KSegL (c : cfg) (reads : list (list string)) (cum : list N) (out : list string) (dead : bool).
 
 Fixpoint feed (g : cfg) (k : mconn) (reads : list bytes) : mconn * list N :=
   match reads with
@@ -35,12 +38,15 @@ Definition is_dead (k : mconn) : bool := match cstat _ _ k with Dead => true | _
 Definition final_wire (g : cfg) (reads : list bytes) : bytes :=
   wire (output _ _ (mrun g (filter (fun r => negb (match r with [] => true | _ => false end)) reads))).
 
+Definition check_seg (g : cfg) (reads : list bytes) (cum : list N) (out : bytes) (dead : bool) : bool :=
+  let '(kf, l) := feed g (conn_init _ _ []) reads in
+  if dead then is_dead kf
+  else negb (is_dead kf) && listN_eqb l cum && bytes_eqb (wire (output _ _ kf)) out.
+
 Definition check (k : case) : bool :=
   match k with
-  | KSeg g reads cum out dead =>
-    let '(kf, l) := feed g (conn_init _ _ []) (map unhex reads) in
-    if dead then is_dead kf
-    else negb (is_dead kf) && listN_eqb l cum && bytes_eqb (wire (output _ _ kf)) (unhex out)
+  | KSeg g reads cum out dead => check_seg g (map unhex reads) cum (unhex out) dead
+  | KSegL g reads cum out dead => check_seg g (map (flat_map unhex) reads) cum (flat_map unhex out) dead
   | KAll g stream out =>
     let s := unhex stream in
     let o := unhex out in
